@@ -4,7 +4,7 @@ n="$1"
 cd /verif || exit 1
 git merge --no-edit "$n" > /tmp/merge-$n.log 2>&1 || {
   # generated files may conflict: take ours and regenerate
-  for f in MANIFEST.json known_findings.json lean/Main.lean $(git diff --name-only --diff-filter=U | grep "^evidence/"); do git checkout --ours -- $f 2>/dev/null && git add $f; done
+  for f in MANIFEST.json known_findings.json lean/Main.lean tools/extract.py $(git diff --name-only --diff-filter=U | grep "^evidence/"); do git checkout --ours -- $f 2>/dev/null && git add $f; done
   if git diff --name-only --diff-filter=U | grep -q .; then echo "UNRESOLVED:"; git diff --name-only --diff-filter=U; exit 1; fi
   git commit -q --no-edit
 }
